@@ -189,7 +189,8 @@ impl Property for C12 {
                         },
                     });
                 }
-                (COp::Truncate { q, pos }, Outcome::Truncated { .. }) => {
+                // "requested by the history": whatever the call answered
+                (COp::Truncate { q, pos }, _) => {
                     truncs.entry(q.text()).or_default().insert(*pos);
                 }
                 (COp::Delete { q }, Outcome::Deleted) => {
